@@ -4,6 +4,7 @@ import functools
 import logging
 import numbers
 import operator
+from contextlib import suppress
 from functools import reduce
 
 import claripy
@@ -15,7 +16,7 @@ from claripy.backends.backend_vsa.errors import ClaripyVSAError
 from claripy.errors import BackendError
 from claripy.operations import backend_operations_vsa_compliant, expression_set_operations
 
-from .bool_result import BoolResult, FalseResult, TrueResult
+from .bool_result import BoolResult, FalseResult, MaybeResult, TrueResult
 from .discrete_strided_interval_set import DiscreteStridedIntervalSet
 from .strided_interval import StridedInterval
 from .valueset import ValueSet
@@ -76,6 +77,8 @@ class BackendVSA(Backend):
         self._op_raw["__xor__"] = self._op_xor
         self._op_raw["__and__"] = self._op_and
         self._op_raw["__mod__"] = self._op_mod
+        self._op_raw["__eq__"] = self._op_eq
+        self._op_raw["__ne__"] = self._op_ne
 
     @staticmethod
     def _op_add(*args):
@@ -104,6 +107,26 @@ class BackendVSA(Backend):
     @staticmethod
     def _op_mod(*args):
         return reduce(operator.__mod__, args)
+
+    @staticmethod
+    def _op_eq(a, b):
+        if isinstance(a, BoolResult) and isinstance(b, BoolResult):
+            # BoolResult.__eq__ compares the two abstract values structurally and answers with a Python bool;
+            # the operation on the values they stand for is three-valued
+            if a.cardinality == 1 and b.cardinality == 1:
+                return TrueResult() if a.value == b.value else FalseResult()
+            return MaybeResult()
+        with suppress(TypeError, ValueError):
+            return operator.__eq__(a, b)
+        return NotImplemented
+
+    @staticmethod
+    def _op_ne(a, b):
+        if isinstance(a, BoolResult) and isinstance(b, BoolResult):
+            return ~BackendVSA._op_eq(a, b)
+        with suppress(TypeError, ValueError):
+            return operator.__ne__(a, b)
+        return NotImplemented
 
     def convert(self, expr):
         return Backend.convert(self, claripy.excavate_ite(expr) if isinstance(expr, Base) else expr)
